@@ -1,6 +1,6 @@
 From Coq Require Import List NArith ZArith Bool.
 From LTV.C15 Require Import ParamsGen.
-From LTV.C15 Require Import Model Proofs ProofsMid ProofsTableA ProofsTableB ProofsTableC ProofsTokens ProofsCounters ProofsReply ProofsOwn ProofsPositive ProofsTx.
+From LTV.C15 Require Import Model Proofs ProofsMid ProofsTableA ProofsTableB ProofsTableC ProofsTokens ProofsCounters ProofsReply ProofsOwn ProofsPositive ProofsTx ModelSearch ProofsSearch ProofsPeers.
 Import ListNotations.
 Local Open Scope N_scope.
 
@@ -162,15 +162,29 @@ Theorem reply_nodes_live_when_fresh : forall t id e, fresh_for t id -> In e (snd
 Proof. exact closest_fresh_live. Qed.
 Print Assumptions reply_nodes_live_when_fresh.
 
-(* ... and not in general: a filled cache survives a node turning bad (until the next add/remove in
-   that bucket or the next housekeeping) *)
-Theorem reply_nodes_stale_refuted :
+(* ... and on a tree WITH /repo 5bd3da4 (probed behaviourally into chain_inval) the cache of every
+   bucket is emptied when a node is deleted or turns bad, so the next reply is rebuilt from the table:
+   reply_nodes_live = these two + reply_nodes_live_when_fresh *)
+Theorem reply_nodes_live_after_delete : forall s id b, chain_inval = true -> lookup id (tb (tab s)) <> None ->
+  In b (tb (tab (node_invalid s id))) -> bcache b = [].
+Proof. exact delete_clears_all_caches. Qed.
+Print Assumptions reply_nodes_live_after_delete.
+
+Theorem reply_nodes_live_after_turning_bad : forall s id ip k n b, chain_inval = true ->
+  lookup id (tb (tab s)) = Some (k, n) -> nip n = ip -> is_bad n = false -> ninact n + 1 = max_failed ->
+  err (fst (node_inactive s id ip)) = false ->
+  In b (tb (tab (fst (node_inactive s id ip)))) -> bcache b = [].
+Proof. exact failed_query_clears_all_caches. Qed.
+Print Assumptions reply_nodes_live_after_turning_bad.
+
+(* on a tree WITHOUT the fix the strict form is refuted (kept so that an older tree is still modelled) *)
+Theorem reply_nodes_stale_on_old_trees : chain_inval = false ->
   exists sha ops, let s := run sha (init (2 ^ 159 + 1) 1 2 34560000) ops in
     err s = false /\
     (exists b n, In b (tb (tab s)) /\ In n (bnodes b) /\ nid n = st_id /\ is_bad n = true) /\
     snd (step sha s (OFindNode 5)) = Rnodes [(st_id, 2130706434, 4000)].
-Proof. exact ProofsReply.reply_nodes_stale_refuted. Qed.
-Print Assumptions reply_nodes_stale_refuted.
+Proof. exact ProofsReply.reply_nodes_stale_on_old_trees. Qed.
+Print Assumptions reply_nodes_stale_on_old_trees.
 
 (* well-formed get_peers: token = H(current secret, source ip)[0..8]; values are stored peers of
    the asked info-hash only, else nodes *)
@@ -321,3 +335,35 @@ Theorem table_inv_with_transactions : forall sha ownid c p t0 fl ops,
   contiguous 0 (tb (tab s)) /\ Forall bucket_ok (tb (tab s)).
 Proof. exact ProofsTx.table_inv_with_transactions. Qed.
 Print Assumptions table_inv_with_transactions.
+
+(* ------------------------------------------------------------------ outgoing search (dht::DhtSearch)
+   Model of the contact set of a find_node search (ModelSearch.v), tied to the real DhtSearch object
+   by its own correspondence (case lines "S ..."). *)
+
+(* search_terminates, measure form: for ANY list of offers / hand-outs / answers / trims, the contacts
+   handed out plus the contacts still uncontacted never exceed the offers: every offered contact is
+   handed out at most once *)
+Theorem search_terminates : forall t ops,
+  let s := search_run (search_init t) ops in
+  s_contacted s + count_new (s_cs s) <= offers ops.
+Proof. exact ProofsSearch.search_terminates. Qed.
+Print Assumptions search_terminates.
+
+Theorem search_measure : forall ops s, ProofsSearch.inv s ->
+  s_contacted (search_run s ops) + count_new (s_cs (search_run s ops)) <= s_contacted s + count_new (s_cs s) + offers ops.
+Proof. exact ProofsSearch.search_measure. Qed.
+Print Assumptions search_measure.
+
+(* it ends: a started search with no contact being queried any more is complete (pending = number
+   of Active contacts is an invariant) *)
+Theorem search_ends : forall t ops, let s := search_run (search_init t) ops in
+  s_err s = false -> s_started s = true -> count_active (s_cs s) = 0 -> search_complete s = true.
+Proof. exact ProofsSearch.search_ends. Qed.
+Print Assumptions search_ends.
+
+(* every stored peer is reachable: for a store of 33..128 peers each peer lies in the 32-peer window
+   get_peers returns for at least one value of random() (finite check over all sizes, lifted) *)
+Theorem every_peer_reachable : forall l p, mp < lenN l -> lenN l <= Params.dht_tracker_max_size -> In p l ->
+  exists rnd, In (peer_bytes p) (get_peers rnd l).
+Proof. exact ProofsPeers.every_peer_reachable. Qed.
+Print Assumptions every_peer_reachable.
